@@ -234,6 +234,11 @@ func ruleCookie(c *Ctx) {
 						return false
 					})
 					_, miss := seen[g.Exit]
+					// a panic (or any other abnormal end) before the status was set
+					// ends the process with a status that is not 1
+					if _, aborts := seen[g.Abort]; aborts && g.Abort != nil {
+						okFail = false
+					}
 					if miss {
 						// feasibility: the failure may only be recorded in a flag first
 						miss = p.FeasibleReach(f, []*Node{e2.To}, isSet1, testMode)[g.Exit]
@@ -786,5 +791,77 @@ func ruleUnixListen(c *Ctx) {
 	}
 	if nChdir == 0 {
 		c.R.Hold("R-LISTEN/unix", "-", "", "no change of the working directory", "no call of os.Chdir in the module", true)
+	}
+}
+
+// ---------- R-ORDER/announce: once the version is chosen, Serve announces it unless something failed ----------
+
+// ruleServeAnnounces: the host learns *why* a plugin cannot be used from the
+// handshake line (an incompatible version, an unsupported protocol); a plugin
+// that leaves before printing it shows up as "Unrecognized remote plugin
+// message". So from the call of protocolVersion, outside test mode, every path
+// to a return of Serve that does not pass the handshake print crosses the
+// failure edge of some operation (err != nil: the listener, the TLS
+// configuration, the pipes). A return decided by a plain predicate ("the host
+// asked for none of my versions") has no such edge.
+func ruleServeAnnounces(c *Ctx) {
+	p := c.P
+	si := p.serveInfo(c, "R-ORDER/announce")
+	if si == nil {
+		return
+	}
+	f, g, info := si.f, si.g, si.info
+	testF := p.FieldObj(modPath, "ServeConfig", "Test")
+	var negN *Node
+	for _, m := range g.Nodes {
+		if m.Ast == nil {
+			continue
+		}
+		for _, call := range callsIn(m.Ast) {
+			if p.CalleeName(f, call) == modPath+".protocolVersion" {
+				negN = m
+			}
+		}
+	}
+	if negN == nil {
+		c.R.Undecided("R-ORDER/announce", f.Name, "anchor", "no call of protocolVersion in Serve")
+		return
+	}
+	cut := func(e *Edge) bool {
+		if errNonNilEdge(info, e) {
+			return true
+		}
+		at, ok := edgeAtom(info, e)
+		if !ok {
+			return false
+		}
+		// test mode hands the address over through a channel instead
+		if at.Kind == "nil" && at.Op == token.NEQ && SelField(info, at.X) == testF && testF != nil {
+			return true
+		}
+		return false
+	}
+	var starts []*Node
+	for _, e := range negN.Succs {
+		starts = append(starts, e.To)
+	}
+	seen := p.FeasibleReach(f, starts, func(x *Node) bool { return x == si.print }, cut)
+	construct := "a chosen version is announced unless an operation failed"
+	if seen[g.Exit] {
+		var where *Node
+		for x := range seen {
+			if _, isR := x.Ast.(*ast.ReturnStmt); isR {
+				if where == nil || x.Ast.Pos() < where.Ast.Pos() {
+					where = x
+				}
+			}
+		}
+		pos := p.Pos(si.print.Ast)
+		if where != nil {
+			pos = p.Pos(where.Ast)
+		}
+		c.R.Violate("R-ORDER/announce", pos, f.Name, construct, "outside test mode Serve can return after protocolVersion without printing the handshake line and without any operation having failed: the host then sees a plugin that exits silently (\"Unrecognized remote plugin message\") instead of the line that tells it what is incompatible", nil)
+	} else {
+		c.R.Hold("R-ORDER/announce", p.Pos(si.print.Ast), f.Name, construct, "every print-free path from protocolVersion to a return crosses an err != nil edge (or is test mode)", true)
 	}
 }
